@@ -119,6 +119,7 @@ FOREIGN = {
         (ENTRYF, "the encrypted flag is set exactly when keys were given"),
     ],
     "C17": [
+        (("rules.C01", "patch_rules", "facts"), "an entry with extra data or padding round-trips: its recorded compressed size is what lies between the (advanced) data start and the end of its data"),
         (("rules.C20", "store_rules", "facts"), "data_start() as reported by the reader is what find_content computed from the LOCAL header (not a value precomputed from the central record)"),
         (("rules.C03", "central_rules", "ctx"), "the reader locates the (aligned) data through the local header's own lengths"),
         (("rules.C02", "offs_rules", "ctx"), "the data start recorded at open is the observed stream position (not recomputed from lengths)"),
